@@ -52,6 +52,10 @@ def make_set(rng, avoid):
         decls = g.unit(with_config=(k == 0 and rng.random() < 0.5), n_types=rng.randint(0, 2), n_fbs=rng.randint(0, 2),
                        n_programs=1, n_functions=rng.randint(0, 1))
         files.append(["u%d.st" % k, vgen.render_unit(decls), decls])
+    if n >= 2 and rng.random() < 0.3:
+        # two paths that differ only in letter case are two files
+        files[0][0] = "Pump.st"
+        files[1][0] = "pump.st"
     bad_index = None
     if fault != "none":
         bad_index = rng.randrange(n)
